@@ -3,7 +3,7 @@
  "id": "SCAN.nextchar",
  "file": "scan.c", "function": "nextchar", "also_functions": ["bufadd"],
  "properties": {"C13": "contract", "C11": "contract", "C19": "safety"},
- "mode": "dfcc", "enforce": "nextchar/nextchar_contract", "post_macro": "POST_NCU",
+ "mode": "dfcc", "enforce": "nextchar/nextchar_contract",
  "kind": "bounded",
  "bound": "every file of at most 8 bytes (all byte values), every read position in it, i.e. up to 4 consecutive backslash-newline pairs; splice loop fully unwound (6)",
  "unwindset": ["nextchar_wrapped_for_contract_checking.0:6"],
@@ -18,31 +18,72 @@
 #define GS_SPL 4
 #include "scan_common.h"
 
-bool g_colsync;    /* ghost: on entry the column is that of the byte in front of the read position */
+/*
+ * Contract of nextchar(s)  (C11 5.1.1.2p1 phase 2; property C11 location accounting).  Ghosts:
+ *   g_nc_k   number of backslash-newline pairs at the stream position on entry,
+ *   g_nc_c   the byte after them (LEX_EOF at the end of the file) = the next logical character,
+ *   g_e_*    the state the stand-in nextchar_spec() (scan_common.h) produces from the same pre-state.
+ */
+size_t g_nc_pos0, g_nc_k, g_nc_line, g_nc_col, g_nc_len;
+int g_nc_c, g_nc_chr0;
+bool g_nc_usebuf;
+bool g_colsync;    /* on entry the column is that of the byte in front of the read position */
+int g_e_chr;
+size_t g_e_pos, g_e_line, g_e_col, g_e_dlen;
+unsigned g_e_unget, g_e_ungetmax;
 
-#define PRE_NCU(X)  PRE_NC(X) \
+#define COL_BEFORE (g_in_pos == 0 ? g_col0 : g_in[g_in_pos - 1] == '\n' ? 0 : g_colof[g_in_pos - 1])
+
+#define PRE(X) \
+	X(s != 0 && s->file == ghost_file()) \
+	X(g_in_n <= G_IN_MAX && g_in_pos <= g_in_n) \
+	X(g_nc_pos0 == g_in_pos && g_nc_line == s->loc.line && g_nc_col == s->loc.col) \
+	X(g_nc_k == gs_splices_at(g_in_pos) && !GS_PAIR(g_in_pos + 2 * g_nc_k)) \
+	X(g_nc_c == GS_BYTE(g_in_pos + 2 * g_nc_k)) \
+	X(g_nc_usebuf == s->usebuf && g_nc_chr0 == s->chr && g_nc_len == s->buf.len) \
+	X(IMP(s->usebuf, BUF_OK(&s->buf))) \
 	X(s->loc.line == g_line0 + g_nlcum[g_in_pos]) \
-	X(g_colsync == (s->loc.col == (g_in_pos == 0 ? g_col0 : g_in[g_in_pos - 1] == '\n' ? 0 : g_colof[g_in_pos - 1])))
+	X(g_colsync == (s->loc.col == COL_BEFORE)) \
+	X(g_unget_max == 0)
 
-#define POST_NCU(X) POST_NC(X) \
-	/* absolute form of the C11 accounting: the scanner location stays in step with the stream position */ \
+#define POST(X) \
+	/* phase 2: every backslash-newline pair in front of the character is deleted; the character itself is returned, \
+	   a backslash that is not followed by new-line included */ \
+	X(s->chr == g_nc_c) \
+	X(g_in_pos == (g_nc_c == LEX_EOF ? g_in_n : g_nc_pos0 + 2 * g_nc_k + 1)) \
+	/* C11: one line per new-line byte consumed (a splice is a physical line) */ \
+	X(s->loc.line == g_nc_line + g_nc_k + (g_nc_c == '\n')) \
+	/* column of the character on its physical line; 0 for new-line so that the next character gets column 1 */ \
+	X(s->loc.col == (g_nc_c == '\n' ? 0 : g_nc_k > 0 ? 1 : g_nc_col + 1)) \
+	/* absolute form: the scanner location stays in step with the stream position */ \
 	X(SYNC_LINE(s)) \
 	X(IMP(g_colsync, SYNC_COL(s))) \
+	/* the previous character is appended to the token spelling iff the spelling is being collected */ \
+	X(s->usebuf == g_nc_usebuf) \
+	X(s->buf.len == g_nc_len + (g_nc_usebuf ? 1 : 0)) \
+	X(IMP(g_nc_usebuf, s->buf.str[g_nc_len] == (unsigned char)g_nc_chr0 && BUF_OK(&s->buf))) \
+	/* at most the one look-ahead byte behind a lone backslash is pushed back (ISO C guarantees one) */ \
+	X(g_unget_depth == (g_nc_c == '\\' && g_nc_pos0 + 2 * g_nc_k + 1 < g_in_n ? 1 : 0)) \
 	X(g_unget_max <= 1) \
+	/* refinement: exactly the state of the stand-in that replaces nextchar in the callers' units */ \
+	X(s->chr == g_e_chr && g_in_pos == g_e_pos) \
+	X(s->loc.line == g_e_line && s->loc.col == g_e_col) \
+	X(s->buf.len == g_nc_len + g_e_dlen) \
+	X(g_unget_depth == g_e_unget && g_unget_max == g_e_ungetmax) \
 	CANARY(X, !(g_nc_k == 2 && g_nc_c == 'x' && g_nc_usebuf))
 
 static void nextchar_contract(struct scanner *s)
-REQUIRES(PRE_NCU)
+REQUIRES(PRE)
 __CPROVER_assigns(s->chr, s->loc.line, s->loc.col, s->buf.str, s->buf.len, s->buf.cap,
                   g_in_pos, g_unget_depth, g_unget_max, g_getc_calls)
 __CPROVER_assigns(s->buf.str != 0: __CPROVER_object_whole(s->buf.str))
 __CPROVER_frees(s->buf.str)
-ENSURES(POST_NCU);
+ENSURES(POST);
 
 void
 harness(void)
 {
-	static struct scanner sc;
+	static struct scanner sc, sc2;
 	struct scanner *s = &sc;
 	IN(u64, in_bytes);
 	IN(size_t, in_n);
@@ -86,6 +127,15 @@ harness(void)
 	g_nc_k = gs_splices_at(g_in_pos);
 	g_nc_c = GS_BYTE(g_in_pos + 2 * g_nc_k);
 	g_nc_usebuf = s->usebuf; g_nc_chr0 = s->chr; g_nc_len = s->buf.len;
-	g_colsync = (s->loc.col == (g_in_pos == 0 ? g_col0 : g_in[g_in_pos - 1] == '\n' ? 0 : g_colof[g_in_pos - 1]));
-	CALL(PRE_NCU, POST_NCU, nextchar(s));
+	g_colsync = (s->loc.col == COL_BEFORE);
+
+	/* the stand-in on a copy of the pre-state (its own empty buffer), then the stream is rewound */
+	sc2 = sc;
+	sc2.buf.str = 0; sc2.buf.len = 0; sc2.buf.cap = 0;
+	nextchar_spec(&sc2);
+	g_e_chr = sc2.chr; g_e_pos = g_in_pos; g_e_line = sc2.loc.line; g_e_col = sc2.loc.col; g_e_dlen = sc2.buf.len;
+	g_e_unget = g_unget_depth; g_e_ungetmax = g_unget_max;
+	g_in_pos = in_pos; g_unget_depth = 0; g_unget_max = 0; g_getc_calls = 0;
+
+	CALL(PRE, POST, nextchar(s));
 }
